@@ -202,6 +202,40 @@ func runC15(p *core.Prog, r *core.Report) {
 		return out
 	}
 
+	// the recover path may branch only on: recover() == nil, identity with http.ErrAbortHandler, the level gate, Status == 0
+	{
+		var odd []string
+		for _, b := range recClosure.Blocks {
+			iff, ok := b.Instrs[len(b.Instrs)-1].(*ssa.If)
+			if !ok {
+				continue
+			}
+			okCond := false
+			switch c := iff.Cond.(type) {
+			case *ssa.BinOp:
+				ox, oy := sx.Origins(c.X), sx.Origins(c.Y)
+				isRec := func(o map[string]bool) bool { return o["call:builtin.recover"] }
+				isNil := func(v ssa.Value) bool { return sx.IsNilConst(v) }
+				switch {
+				case (isRec(ox) && isNil(c.Y)) || (isRec(oy) && isNil(c.X)):
+					okCond = true
+				case (isRec(ox) && oy["global:ErrAbortHandler"]) || (isRec(oy) && ox["global:ErrAbortHandler"]):
+					okCond = true
+				case ox["field:ResponseWriter.Status"] || oy["field:ResponseWriter.Status"]:
+					okCond = true
+				}
+			case *ssa.Call:
+				if c.Call.IsInvoke() && c.Call.Method.Name() == "Enabled" {
+					okCond = true
+				}
+			}
+			if !okCond {
+				odd = append(odd, "branch on "+short(sx.ValPath(iff.Cond))+" at "+p.Pos(iff.Pos()))
+			}
+		}
+		r.Check(len(odd) == 0, "C15-R2", "Relay recover path: a panic is skipped only for recover() == nil or the http.ErrAbortHandler sentinel itself", p.FuncPos(recClosure), "every branch tests recover()'s result against nil / the sentinel (identity), the level gate or Status == 0", strings.Join(odd, "; ")+": panic values other than the sentinel itself (e.g. errors wrapping it) can be swallowed without a 500 and without an Error record")
+	}
+
 	// ---- R2
 	{
 		writers := responseWriters(p)
@@ -440,7 +474,13 @@ func runC15(p *core.Prog, r *core.Report) {
 						okAll = false
 					}
 				}
-				r.Check(okAll, "C15-R6", fnName(fn)+": forwarded status is recorded", p.Pos(in.Pos()), "Status = code on every path that forwards WriteHeader", "WriteHeader is forwarded to the wrapped writer on a path that does not record the same code in Status")
+				// and only after the wrapped writer accepted it (it panics on an invalid code without sending anything)
+				for st := range cut.Instrs {
+					if !sx.MustPass(fn, nil, st, sx.Cut{Instrs: map[ssa.Instruction]bool{c: true}}) {
+						okAll = false
+					}
+				}
+				r.Check(okAll, "C15-R6", fnName(fn)+": forwarded status is recorded", p.Pos(in.Pos()), "Status = code after the wrapped writer accepted the header, on every path", "the status is not recorded on every path after forwarding WriteHeader — or is recorded before forwarding: net/http panics on an invalid code without sending anything, Status is then non-zero although nothing was sent and the 500 is suppressed")
 			case "Write":
 				cut := sx.Cut{Edges: map[sx.Edge]bool{}, Instrs: map[ssa.Instruction]bool{}}
 				// Status != 0 edges
